@@ -247,13 +247,29 @@ static std::vector<Instance> instances(const std::string &tier) {
 		v.push_back(i);
 	};
 #define BS(name, ...) add(name, [=](const std::vector<CrashInfo> &cr) { Enumerator E(name, "C18", cr); bitsets(E, th, std::index_sequence<__VA_ARGS__>{}); return E.finish(); })
-	BS("bitset-10", 10); BS("bitset-9", 9); BS("bitset-8-7", 8, 7); BS("bitset-1-6", 1, 2, 3, 4, 5, 6);
-	BS("bitset-31-33", 31, 32, 33); BS("bitset-63-66", 63, 64, 65, 66); BS("bitset-127-130", 127, 128, 129, 130);
+#ifndef C18_PART
+#define C18_PART -1
+#endif
+#define ON(n) (C18_PART == -1 || C18_PART == (n))
+	// built as several binaries (C18_PART) so that the template instantiations compile in parallel
+#if ON(0)
+	BS("bitset-10", 10); BS("bitset-9", 9);
+#endif
+#if ON(1)
+	BS("bitset-8-7", 8, 7); BS("bitset-1-6", 1, 2, 3, 4, 5, 6); BS("bitset-31-33", 31, 32, 33);
+#endif
+#if ON(2)
+	BS("bitset-63-66", 63, 64, 65, 66); BS("bitset-127-130", 127, 128, 129, 130);
+#endif
+#if ON(3)
 	BS("bitset-191-193", 191, 192, 193); BS("bitset-253-256", 253, 256);
+#endif
+#if ON(4)
 	if(th) { BS("bitset-11-12", 11, 12); BS("bitset-257-320", 257, 319, 320); }
 	add("array", [=](const std::vector<CrashInfo> &cr) { Enumerator E("array", "C18", cr); array_test<1>(E); array_test<2>(E); array_test<3>(E); array_test<4>(E); array_test<5>(E); array_test<17>(E); return E.finish(); });
 	for(int s = 0; s < 4; s++) add("prng-" + std::to_string(s), [=](const std::vector<CrashInfo> &cr) { return run_prng(cr, th, s, 4); });
 	add("insertion_sort", [=](const std::vector<CrashInfo> &cr) { return run_sort(cr, th); });
+#endif
 	return v;
 }
 int main(int argc, char **argv) { return harness_main(argc, argv, instances); }
